@@ -38,6 +38,10 @@ Statements
     X[(np.arange(N), np.arange(N))] = np.zeros(N)        X : Md / Ms, N : N  -> zero_diag_n
     X[np.where(X < c)] = v                      X : Md (rejected on Ms), c, v literals -> set_where_lt
     return NAME
+    if isinstance(tprob, np.matrix): tprob = np.asarray(tprob)     exact text, REQUIRED as the second statement of
+                                                reactive_fluxes (the only function that multiplies tprob): without it
+                                                `tprob * x` on an np.matrix is the matrix product and the typing Md
+                                                of tprob would be wrong; the entries are unchanged (no Gallina text)
 _get_data_from_tprob additionally (exact text): the two `np.array(..).reshape((-1,))` normalisations of
 sources / sinks and `if populations is None: populations = eq_probs(tprob)` (the populations are an input
 of the model, given or computed), and `return` of a 4-tuple of names.
@@ -51,6 +55,7 @@ REL = "enspara/tpt/tpt.py"
 ARGS = ["tprob", "sources", "sinks", "populations"]
 HELPER = "_get_data_from_tprob"
 MAT = ("Md", "Ms")
+MATRIX_NORM = "if isinstance(tprob, np.matrix):\n    tprob = np.asarray(tprob)"
 COQTY = {"Md": "mat", "Ms": "mat", "V": "vec", "N": "nat", "S": "Q"}
 
 
@@ -342,6 +347,13 @@ def tr_fn(fn, kind, helper_types):
             reject(fn, "empty body")
         f.unpack_helper(b[0])
         body = b[1:]
+        if fn.name == "reactive_fluxes":
+            # np.matrix is an ndarray subclass on which `*` is the matrix product: tprob has shape type Md
+            # only behind this normalisation (same entries, so it leaves no trace in the Gallina text)
+            if not body or ast.unparse(body[0]) != MATRIX_NORM:
+                reject(fn, "reactive_fluxes: expected `%s` right after the call of %s"
+                       % (MATRIX_NORM.replace("\n   ", ""), HELPER))
+            body = body[1:]
     if not body or not isinstance(body[-1], ast.Return):
         reject(fn, "%s: expected a final return" % fn.name)
     ret = None
